@@ -193,6 +193,34 @@ func stressTemplates(thorough bool) []hostileInput {
 	add("mutual-const", "const a = b;\nconst b = a;\n"+entry("o[0] = u32(a);"))
 	add("recursive-override", "override a: u32 = a;\n"+entry("o[0] = a;"))
 	add("mutual-override", "override a: u32 = b;\noverride b: u32 = a;\n"+entry("o[0] = a;"))
+	// self reference below every operator form an override initialiser may take
+	for i, init := range []string{"-a", "~a", "a + 1u", "1u + a", "a * a", "(a)", "-(-a)", "1u - (2u * a)", "u32(a)", "min(a, 1u)", "select(a, 1u, true)"} {
+		add(fmt.Sprintf("recursive-override-%d", i), "override a: u32 = "+init+";\n"+entry("o[0] = a;"))
+	}
+	add("recursive-override-bool", "override e: bool = true;\noverride b: bool = e && !b;\n"+entry("o[0] = u32(b);"))
+	add("recursive-override-i32", "override a: i32 = -a;\n"+entry("o[0] = u32(a);"))
+	add("recursive-override-chain", "override a: u32 = b + 1u;\noverride b: u32 = c * 2u;\noverride c: u32 = ~a;\n"+entry("o[0] = a;"))
+	// constant indices outside the object (a shader-creation error in WGSL; whatever the front end does, no stage may crash)
+	for i, body := range []string{"let c = vec4<f32>(1.0); let p = c[5]; o[0] = u32(p);", "var t = vec3<f32>(1.0); t[4] = 1.0; o[0] = u32(t[4]);", "let c = vec2<u32>(1u); o[0] = c[7];",
+		"let m = mat2x2<f32>(1.0, 2.0, 3.0, 4.0); o[0] = u32(m[3][0]);", "let m = mat2x2<f32>(1.0, 2.0, 3.0, 4.0); o[0] = u32(m[1][9]);", "var a = array<u32, 3>(1u, 2u, 3u); o[0] = a[3]; a[100] = 1u;",
+		"o[0] = o[4294967295u];", "let c = vec4<i32>(1); o[0] = u32(c[-1]);", "var a: array<u32, 2>; o[0] = a[1u << 31u];"} {
+		add(fmt.Sprintf("const-index-oob-%d", i), entry(body))
+	}
+	add("const-index-oob-builtin", hostilePrelude+"@compute @workgroup_size(1) fn main(@builtin(global_invocation_id) gid: vec3<u32>) { o[0] = gid[7]; }")
+	// shared sub-expressions: a chain of lets each used twice (expression DAG of depth n, tree size 2^n)
+	chain := []int{24, 28}
+	if thorough {
+		chain = append(chain, 40)
+	}
+	for _, n := range chain {
+		var sb strings.Builder
+		sb.WriteString("let a0 = o[1];\n")
+		for i := 1; i <= n; i++ {
+			fmt.Fprintf(&sb, "let a%d = a%d + a%d;\n", i, i-1, i-1)
+		}
+		fmt.Fprintf(&sb, "o[0] = a%d;", n)
+		add(fmt.Sprintf("let-chain-doubling-%d", n), entry(sb.String()))
+	}
 	add("const-self-array", "const n = 4;\nvar<private> a: array<u32, n * n * n * n * n * n * n * n * n * n * n * n * n * n * n * n>;\n"+entry("o[0] = a[0];"))
 	add("nul-bytes", entry("o[0] = 1u;\x00\x00 o[1] = 2u;"))
 	add("invalid-utf8", entry("let \xff\xfe = 1u; // \xc3\x28"))
